@@ -163,6 +163,21 @@ func genScalarClass(r *Rng, class int) *big.Int {
 	case 12:
 		x := new(big.Int).SetUint64(r.U64())
 		return x.Lsh(x, uint(64*r.Intn(3)+r.Intn(60))).Mod(x, R)
+	case 13:
+		// look-alikes of special values in the OTHER representation: the integer whose limbs equal
+		// the Montgomery form of 1 (2^256 mod r), of 2, its square, and the integers whose
+		// Montgomery form has the limbs of 1, 2 (R^-1, 2*R^-1)
+		two256 := new(big.Int).Lsh(bigOne, 256)
+		rinv := new(big.Int).ModInverse(two256, R)
+		c := []*big.Int{
+			new(big.Int).Mod(two256, R),
+			new(big.Int).Mod(new(big.Int).Lsh(bigOne, 257), R),
+			new(big.Int).Mod(new(big.Int).Mul(two256, two256), R),
+			rinv,
+			new(big.Int).Mod(new(big.Int).Lsh(rinv, 1), R),
+			new(big.Int).Mod(new(big.Int).Neg(new(big.Int).Mod(two256, R)), R),
+		}
+		return c[r.Intn(len(c))]
 	}
 	return r.Scalar()
 }
@@ -170,7 +185,7 @@ func genScalarClass(r *Rng, class int) *big.Int {
 func genScalars(mix string, seed uint64, n int) []*big.Int {
 	r := NewRng(seed, n, "scalars:"+mix)
 	out := make([]*big.Int, n)
-	same := genScalarClass(r, r.Intn(13))
+	same := genScalarClass(r, r.Intn(14))
 	for i := range out {
 		switch mix {
 		case "small10":
@@ -189,10 +204,10 @@ func genScalars(mix string, seed uint64, n int) []*big.Int {
 			if r.Chance(60) {
 				out[i] = new(big.Int)
 			} else {
-				out[i] = genScalarClass(r, r.Intn(13))
+				out[i] = genScalarClass(r, r.Intn(14))
 			}
 		case "edge":
-			out[i] = genScalarClass(r, r.Intn(13))
+			out[i] = genScalarClass(r, r.Intn(14))
 		case "carry":
 			out[i] = genScalarClass(r, r.Pick([]int{9, 9, 10, 7, 4}))
 		case "complement":
